@@ -19,7 +19,9 @@ import contextlib
 import io
 import itertools
 import math
+import os
 import re
+import tempfile
 import types
 from fractions import Fraction
 
@@ -28,7 +30,7 @@ from vcheck import Ctx, q2s, load_known
 import tools.rect.rect as rect
 import tools.rect.satmanager as satmanager
 import tools.rect.pseudobool as pseudobool
-from tools.rect.rect_io import select_box
+from tools.rect.rect_io import select_box, get_alloc
 from pysat.solvers import Solver
 
 LEVEL = "proof"
@@ -234,24 +236,83 @@ def grid_cells(xs, ys, order=None):
     return cells
 
 
+MOD_KINDS = ("M", "M+other", "other+M", "other", "empty", "none")
+
+
+def mod_list(kind: str, p: float):
+    """the per-cell module list of the parsed allocation (`ifile`) for a cell of the given kind"""
+    o = min(0.1, max(0.0, 1.0 - p))
+    return {"M": [{"M": p}], "M+other": [{"M": p}, {"other": o}], "other+M": [{"other": o}, {"M": p}],
+            "other": [{"other": 0.3}], "empty": [], "none": None}[kind]
+
+
+def expected_occ(inp) -> list[float]:
+    """occupancy of the selected module in every allocation cell: its value, 0 where the module is absent"""
+    mods = inp.get("mods")
+    if not mods:
+        return list(inp["occ"])
+    return [inp["occ"][t] if "M" in mods[t].split("+") else 0.0 for t in range(len(mods))]
+
+
+def yaml_num(v: float) -> str:
+    r = repr(float(v))
+    return r if "e" not in r and "inf" not in r and "nan" not in r else format(v, ".20f")
+
+
+def alloc_through_file(dims, mods, occ):
+    """write the allocation as a YAML file, read it back with the real get_alloc"""
+    rows = []
+    for t, d in enumerate(dims):
+        ml = mod_list(mods[t] if mods[t] != "none" else "empty", occ[t]) or []
+        # zero entries are left out: `Allocation` divides by a module's total area (a module listed with ratio 0
+        # everywhere makes the allocation reader itself fail — outside this property)
+        dct = ", ".join(f"{k}: {yaml_num(v)}" for m in ml for k, v in m.items() if v > 0)
+        rows.append("[[" + ", ".join(yaml_num(v) for v in d) + "], {" + dct + "}]")
+    fd, path = tempfile.mkstemp(suffix=".yaml", prefix="c08_alloc_")
+    try:
+        with os.fdopen(fd, "w") as f:
+            f.write("[" + ",\n ".join(rows) + "]\n")
+        return call("get_alloc", get_alloc, path)
+    finally:
+        os.unlink(path)
+
+
 def make_ip(inp):
-    """input_problem of a case description: grid corners directly, or through rect_io.select_box."""
+    """input_problem of a case description: grid corners directly, or through rect_io.select_box (from the parsed
+    allocation `ifile` built here, or from a YAML allocation file read by the real get_alloc)."""
     xs, ys, occ = inp["xs"], inp["ys"], inp["occ"]
     cells = grid_cells(xs, ys, inp.get("order"))
-    if inp.get("via") == "alloc":      # cells given as an allocation stores them: [xc, yc, w, h], row-major
-        rects = [{f"b{t}": [{"dim": list(d)}, {"mod": [{"M": occ[t]}]}]} for t, d in enumerate(inp["alloc"])]
-        ifile = {"Width": 1.0, "Height": 1.0, "Rectangles": rects}
-        ip, _ = call("select_box", select_box, "M", ifile)
-    elif inp.get("via") == "select_box":
-        rects = []
-        for t, (i, j) in enumerate(cells):
-            w, h = xs[i + 1] - xs[i], ys[j + 1] - ys[j]
-            rects.append({f"b{t}": [{"dim": [xs[i] + w / 2, ys[j] + h / 2, w, h]}, {"mod": [{"M": occ[t]}, {"other": 0.1}]}]})
-        ifile = {"Width": xs[-1] - xs[0], "Height": ys[-1] - ys[0], "Rectangles": rects}
+    via = inp.get("via")
+    if via in ("alloc", "select_box", "get_alloc"):
+        if via == "alloc":      # cells given as an allocation stores them: [xc, yc, w, h], in listing order
+            dims = [list(d) for d in inp["alloc"]]
+        else:
+            dims = [[xs[i] + (xs[i + 1] - xs[i]) / 2, ys[j] + (ys[j + 1] - ys[j]) / 2, xs[i + 1] - xs[i], ys[j + 1] - ys[j]]
+                    for (i, j) in cells]
+        mods = inp.get("mods") or (["M"] * len(dims) if via == "alloc" else ["M+other"] * len(dims))
+        if via == "get_alloc" or inp.get("through_file"):
+            ifile = alloc_through_file(dims, mods, occ)
+        else:
+            rects = [{f"b{t}": [{"dim": d}, {"mod": mod_list(mods[t], occ[t])}]} for t, d in enumerate(dims)]
+            ifile = {"Width": 1.0, "Height": 1.0, "Rectangles": rects}
         ip, _ = call("select_box", select_box, "M", ifile)
     else:
         ip = [(xs[i], ys[j], xs[i + 1], ys[j + 1], occ[t]) for t, (i, j) in enumerate(cells)]
     return ip, cells
+
+
+def gen_mods(rng, ncells: int, allow_none: bool = True) -> list[str]:
+    """0–40 % truly empty cells (anywhere), the rest hosting the module alone, with another one, or only another"""
+    frac = rng.choice([0.0, 0.1, 0.2, 0.3, 0.4])
+    out = []
+    for _ in range(ncells):
+        if rng.random() < frac:
+            out.append("none" if allow_none and rng.random() < 0.2 else "empty")
+        else:
+            out.append(rng.choice(["M", "M", "M+other", "other+M", "other"]))
+    if frac > 0 and "empty" not in out:
+        out[rng.randrange(ncells)] = "empty"
+    return out
 
 
 def carrier_of(ip):
@@ -366,6 +427,12 @@ def grid_case(ctx: Ctx, inp: dict, reqs: list, todo: list) -> None:
     size = m * n * k
     c = carrier_of(ip)
     ifile = {"Width": xs[-1] - xs[0], "Height": ys[-1] - ys[0]}
+    # 0b. select_box keeps one box per allocation cell, with occupancy 0 where the module is absent
+    exp_occ = expected_occ(inp)
+    if len(ip) != len(cells) or any(ip[t][4] != exp_occ[t] for t in range(len(cells))):
+        ctx.spec_fail("select_box:one-box-per-cell", inp,
+                      {"n_cells": len(cells), "n_boxes": len(ip), "occupancies": [b[4] for b in ip], "expected": exp_occ}, size)
+        return
     # 0. the grid the implementation sees (exact comparison; corners are shared by construction or, through
     #    select_box, recomputed from dyadic centres/sizes)
     if c.xcoords != sorted(set(xs)) or c.ycoords != sorted(set(ys)):
@@ -517,9 +584,15 @@ def seam_case(ctx: Ctx, inp: dict, reqs: list, todo: list) -> None:
     perm = inp.get("perm") or list(range(m * n))
     rm = seam_dims(inp)
     dims = [rm[t] for t in perm]                       # the allocation lists its cells in this order
-    ginp = {"kind": "grid", "alloc": dims, "order": perm, "occ": inp["occ"], "k": inp["k"], "ratio": inp["ratio"],
+    ginp = {"kind": "grid", "alloc": dims, "order": perm, "occ": inp["occ"], "mods": inp.get("mods"), "k": inp["k"], "ratio": inp["ratio"],
             "dif0": LOW, "family": "decimal-alloc/" + inp.get("perm_kind", "rowmajor"), "via": "alloc", "xs": [], "ys": []}
     ip, cells = make_ip(dict(ginp, xs=list(range(m + 1)), ys=list(range(n + 1))))
+    exp_occ = expected_occ(ginp)
+    if len(ip) != len(cells) or any(ip[t][4] != exp_occ[t] for t in range(len(cells))):
+        ctx.case("seam", (m, n, step, ox, oy, tuple(perm)), nontrivial=True)
+        ctx.spec_fail("select_box:one-box-per-cell", inp,
+                      {"n_cells": len(cells), "n_boxes": len(ip), "occupancies": [b[4] for b in ip], "expected": exp_occ}, m * n)
+        return
     c = carrier_of(ip)
     scale = 1e-8 * max(m * step, n * step)
     ok = len(c.xcoords) == m + 1 and len(c.ycoords) == n + 1
@@ -635,6 +708,13 @@ def gen_grid_input(rng, m, n, k, fam=None, bound_mode=None, via=None):
     ratio = rng.choice([2.0, 2.0, 3.0, 1.0])
     inp = {"kind": "grid", "xs": xs, "ys": ys, "order": order, "occ": occ, "k": k, "ratio": ratio, "dif0": LOW,
            "family": fam + ("/origin0" if ox == 0 and oy == 0 else "/shifted"), "via": via}
+    if via == "select_box":
+        if rng.random() < 0.6 and xs[0] >= 0 and ys[0] >= 0:   # through a YAML allocation file and the real get_alloc
+            # (allocation files only admit non-negative rectangle coordinates)
+            inp["via"] = "get_alloc"
+            inp["occ"] = [float(yaml_num(v)) for v in occ]
+        if rng.random() < 0.7:
+            inp["mods"] = gen_mods(rng, m * n, allow_none=inp["via"] == "select_box")
     if bound_mode:
         inp["bound_mode"] = bound_mode
     return inp
@@ -649,6 +729,8 @@ def choose_bound(rng, inp, mode):
              for b in c.blocks]
     except ImplRaised:
         return LOW          # the case itself reports the exception
+    if len(ip) != len(cells):
+        return LOW          # the case itself reports the missing boxes
     m, n = len(inp["xs"]) - 1, len(inp["ys"]) - 1
     cb = {cells[t]: t for t in range(len(cells))}
     costs = sorted(sum(w[cb[cc]] for r in sh for cc in rect_cells(r)) for sh in orthogons(m, n, inp["k"]))
@@ -711,7 +793,8 @@ def run(ctx: Ctx) -> None:
                 "origins (0, positive, negative, fractional), cells listed "
                 "row-major / reversed / column-major / column-major reversed / shuffled, occupancies in {0, 1, .5, .9, .25, random} or all 0 / all 1 / tiny, ratio 1, 2 or 3, k boxes; the real "
                 "rect.solve is run with a cost bound (none / max achievable / max+1 / random achievable±1); part of the grids "
-                "go through rect_io.select_box (dyadic data). quick: every shape ≤ 3×3 with k ≤ 3 (5 grids per shape for k ≤ 2, "
+                "go through rect_io.select_box (dyadic data), half of those through a YAML allocation file and the real get_alloc, "
+                "with 0–40 % truly empty cells ({}), cells hosting only another module, the module with another one. quick: every shape ≤ 3×3 with k ≤ 3 (5 grids per shape for k ≤ 2, "
                 "2 for k = 3), each with and without a cost bound, + 60 random ≤ 3×3 / 2×4 with bounds; thorough: every shape ≤ 3×3 "
                 "and 2×4, 4×2 with k ≤ 3 (12 grids each) and 1500 random ≤ 4×4 with cost bounds.  'seam' cases: uniform decimal-step "
                 "grids given as (centre, size) like an allocation file, through rect_io.select_box.  'raw' cases: arbitrary box lists "
@@ -770,7 +853,7 @@ def run(ctx: Ctx) -> None:
         pk, perm = cell_order(rng, m, n)
         inputs.append({"kind": "seam", "m": m, "n": n, "step": rng.choice([0.1, 0.3, 0.7, 0.05, 1.1, 0.5, 2.0]),
                        "ox": rng.choice([0.0, 1.0, 0.2]), "oy": rng.choice([0.0, -1.0, 0.4]), "perm": perm, "perm_kind": pk,
-                       "occ": gen_occ(rng, m * n),
+                       "occ": gen_occ(rng, m * n), "mods": gen_mods(rng, m * n) if rng.random() < 0.6 else None,
                        "k": rng.choice([1, 2, 2]) if quick or m * n > 9 else rng.choice([1, 2, 3]),
                        "ratio": rng.choice([2.0, 3.0, 1.0])})
     run_cases(ctx, inputs)
